@@ -184,7 +184,7 @@ def attendIterA (o : Nat) : List FI :=
   asect lkDb [((mAll o).guard o 1 1).guard o 4 1] ++
   asect lkSvc [(((mSubStoredR o).guard o 6 1).guard o 1 1).guard o 4 1] ++
   asect lkSvc [((((mLastChkR o).guard o 7 1).guard o 6 1).guard o 1 1).guard o 4 1] ++
-  [.blk (((((mCallback o).guard o 7 1).guard o 6 1).guard o 1 1).guard o 4 1)]
+  asect lkApp [((((mCallback o).guard o 7 1).guard o 6 1).guard o 1 1).guard o 4 1]
 
 def respA (o : Nat) (ks : List Nat) (g : LSt → List Nat) : List FI := [.blk (mSetResp o ks g)]
 
@@ -346,12 +346,12 @@ macro "fuse_eval" : tactic => `(tactic| (
     mProvHas, mConsAdd, mConsDel, mConsCollect, mConsHas, mConsHasR, mSubApp, mSubStamp, mSubsCopy, mSubTest, mSubDrop,
     mSubPop, mSubTestR, mSubDropR, mSubPopR, mLastChkR, mSubStoredR, mGcPick, mSubPick, mRemovePick, mMarkRemove, mCallback,
     mUnsubFind, mSetResp]
-  simp only [fuse, fuseA_acq, fuseA_rel, fuseA_blk, startsBlk, fuseA_nil, lkDb, lkSvc, lkMt, List.isEmpty_cons, List.isEmpty_nil,
+  simp only [fuse, fuseA_acq, fuseA_rel, fuseA_blk, startsBlk, fuseA_nil, lkDb, lkSvc, lkMt, lkApp, List.isEmpty_cons, List.isEmpty_nil,
     Bool.not_false, Bool.not_true, Bool.and_true, Bool.true_and, Bool.false_and, Bool.and_false, if_true, if_false, List.erase_cons_head,
     List.nil_append, List.cons_append, List.append_assoc, pipe_single, gpipe_insert, gpipe_remove, gpipe_collect, gpipe_subAdd, gpipe_subRemove, gpipe_subRemoveR,
     reduceCtorEq, ↓reduceIte, Bool.false_eq_true]
   simp only [compile, compileT, tsect, gcIter, attendIter, attendRemove, TI.erase, List.map_cons, List.map_nil, List.map_append, List.cons_append,
-    List.nil_append, List.append_nil, lkDb, lkSvc, lkMt]))
+    List.nil_append, List.append_nil, lkDb, lkSvc, lkMt, lkApp]))
 
 theorem fuse_gcIterA (o : Nat) : fuse (eraseF (gcIterA o)) = (gcIter o).map TI.erase := by fuse_eval
 theorem fuse_attendIterA (o : Nat) : fuse (eraseF (attendIterA o)) = (attendIter o).map TI.erase := by fuse_eval
@@ -460,7 +460,8 @@ def Op.ids : Op → List Nat
   | .del o _ => [o] | .qry o _ => [o] | .sub o _ _ => [o] | .unsub o _ _ => [o] | .gc o _ => [o] | .attend o _ => [o]
 
 /-- the lock map of the LDM (mirrors `guarded_ldm`): database attributes under the database lock, registries and
-subscription state under the service lock, the registers of operation `o` local to thread `owner o`, `calls` free -/
+subscription state under the service lock, the registers of operation `o` local to thread `owner o`, `calls` free (the callback that appends to it runs as
+the single, hence final, micro-block of a section of the APPLICATION mutex `lkApp`, which protects no LDM variable) -/
 def prot (owner : Nat → ThreadId) : LV → LGuard
   | .db => .lock lkDb | .nextId => .lock lkDb | .insLog => .lock lkDb | .inserted => .lock lkDb
   | .removed => .lock lkDb | .revived => .lock lkDb | .overwritten => .lock lkDb
@@ -475,7 +476,7 @@ macro "lcheck_eval" ho:term : tactic => `(tactic| (
     mInsLd, mInsSt, mInsBump, mInsRet, mExists, mGet, mUpdate, mUpdIf, mRemoveId, mScan, mDelKey, mAll, mProvAdd, mProvDel,
     mProvHas, mConsAdd, mConsDel, mConsCollect, mConsHas, mConsHasR, mSubApp, mSubStamp, mSubsCopy, mSubTest, mSubDrop,
     mSubPop, mSubTestR, mSubDropR, mSubPopR, mLastChkR, mSubStoredR, mGcPick, mSubPick, mRemovePick, mMarkRemove, mCallback,
-    mUnsubFind, mSetResp, lkDb, lkSvc, lkMt, $ho:term]))
+    mUnsubFind, mSetResp, lkDb, lkSvc, lkMt, lkApp, $ho:term]))
 
 theorem replicate_all {α : Type} (n : Nat) (p : α) (P : α → Prop) (h : P p) : ∀ q ∈ List.replicate n p, P q := by
   intro q hq; rw [List.mem_replicate] at hq; rw [hq.2]; exact h
